@@ -21,7 +21,7 @@ SYS_FIELDS = {
     "C07": ["no_panic"],
     "C09": ["bfs_count", "dfs_count", "crash_sets", "no_panic"],
     "C15": ["no_panic"],
-    "C04": ["stream_function", "stream_injective", "bfs_count", "dfs_count"],
+    "C04": ["stream_function", "stream_injective", "eq_faithful", "bfs_count", "dfs_count"],
 }
 
 
@@ -447,6 +447,9 @@ def c04(res):
         if c["v"]["merge"]:
             res.violation("distinct_values_hash_equally/%s" % c["cat"], dict(check="never_merge", category=c["cat"],
                           examples=[x for x in recs if x["cat"] == c["cat"]][:40]))
+        if c["v"].get("eq_wrong"):
+            res.violation("equality_disagrees_with_value/%s" % c["cat"], dict(check="eq_exact", category=c["cat"],
+                          examples=[x for x in recs if x["cat"] == c["cat"] and x.get("eq_keys") not in (None, [x["key"]])][:40]))
     res.traces += len(recs)
     res.evaluations += len(recs)
     res.nontrivial += nvals
